@@ -301,6 +301,13 @@ def cases(ctx):
             b = gen.rand_path_specs(rng, k2, cc, rng.choice(['curve', 'line']), start=start)
             specs = a + b
             cls = ['closed-revisits-start']
+            if rng.random() < 0.5 and a[-1][0] == b[0][0] and a[-1][0] in 'QC' and cc in ('int', 'half', 'dyadic'):
+                # figure eight drawn from its crossing: the lobe that starts at the revisited point continues the
+                # previous curve smoothly (exact reflection), so S/T shorthand is tempting right after the inserted moveto
+                pc = complex(*a[-1][-2])
+                refl = start + (start - pc)
+                b[0][2] = [refl.real, refl.imag]
+                cls.append('smooth-at-revisit')
         elif c < 0.75:
             kind = rng.choice('QC')
             exact = rng.random() < 0.6
